@@ -653,6 +653,22 @@ func (w *slWorker) deliverSlash(x *slNode, cid string) (engine.Node, []V) {
 					vs = append(vs, vf("C08", "downtime-jail-duration", "v%d jailed until %s, the consumer's downtime jail duration says %s", vi, after.jailedTil.Format("15:04:05"), want.Format("15:04:05")))
 				}
 				c.Jails = append(c.Jails, jailEv{T: pre.Time().UnixNano(), Power: power, Meter: preMeter.Int64()})
+				// C12: the infraction is resolved to the provider height at which that validator set was
+				// determined (the channel-opening height for id 0)
+				wantH, okH := uint64(0), false
+				if d.ValsetUpdateId == 0 {
+					wantH, okH = p.K.GetInitChainHeight(ctx, cid)
+				} else {
+					wantH, okH = p.K.GetValsetUpdateBlockHeight(ctx, d.ValsetUpdateId)
+				}
+				if hs := env.EventAttr(res.Events, providertypes.EventTypeExecuteConsumerChainSlash, providertypes.AttributeInfractionHeight); okH && len(hs) == 1 {
+					if hs[0] != fmt.Sprint(wantH) {
+						vs = append(vs, vf("C12", "infraction-height", "downtime report with update id %d: the slash was executed for provider height %s, that id maps to height %d", d.ValsetUpdateId, hs[0], wantH))
+					}
+					w.stats.Count("infraction-height-checked")
+				} else if okH {
+					vs = append(vs, vf("C12", "no-slash-event", "validator jailed but %d execute-slash events were emitted", len(hs)))
+				}
 			}
 			if !gained {
 				vs = append(vs, vf("C08", "no-slash-ack:jailed", "v%d was jailed for consumer %s but no slash ack was recorded", vi, cid))
